@@ -13,7 +13,7 @@ From Coq Require Import String Ascii.
 From Sakura.Model Require Import Base Cursor Length Event Writer Song Token LoopMachine LexCore RunCore Tie Compile.
 From Sakura.Gen Require Import Consts VarRows.
 From Sakura.Spec Require Import SmfSpec TrackSpec.
-From Sakura.Proofs Require Import VlqP WriterP SortP ContainerP BlockP LayoutP LogP.
+From Sakura.Proofs Require Import VlqP WriterP SortP ContainerP ExtP BlockP LayoutP LogP.
 From Coq Require Import Lia Permutation.
 Open Scope list_scope.
 Open Scope Z_scope.
@@ -300,6 +300,26 @@ Proof.
   intros H. unfold exec_get_time. destruct args as [|a [|b [|c l]]]; cbn [snd]; try exact H; apply inv_runtime_error, H.
 Qed.
 
+(* the arms added with the controllers: channel events only *)
+Lemma plain_ev_simple e : plain_ev e -> simple e.
+Proof. intros [_ H]. exact H. Qed.
+Lemma track_inv_push_events t evs : Forall eok evs -> track_inv t -> track_inv (tr_push_events t evs).
+Proof.
+  intros He [H1 H2]. split; [|exact H2]. cbn [tr_push_events tr_set_events tr_events].
+  apply Forall_app. split; [exact H1|exact He].
+Qed.
+Lemma add_events_inv s f : (forall tp ch, Forall plain_ev (f tp ch)) -> events_inv s -> events_inv (add_events s f).
+Proof.
+  intros Hf H. rewrite add_events_eq. apply inv_upd_cur; [|exact H].
+  intros t Ht. apply track_inv_push_events; [|exact Ht].
+  eapply Forall_impl; [|apply Hf]. intros e He. apply simple_eok, plain_ev_simple, He.
+Qed.
+Lemma exec_rpn_direct_inv s nrpn args : events_inv s -> events_inv (exec_rpn_direct s nrpn args).
+Proof.
+  intros H. destruct (exec_rpn_direct_cases_plain s nrpn args) as [(f & -> & Hf)|[m ->]];
+    [apply add_events_inv; assumption|apply inv_runtime_error, H].
+Qed.
+
 (* ------------------------------------------------------------------------------------------------ *)
 (* 2. from the arms to exec_f: an invariant of step_song (relative to exec_children) is one of exec_f *)
 
@@ -393,7 +413,9 @@ Proof.
              | apply exec_voice_inv, H
              | apply inv_track_sync, H
              | apply exec_time_signature_inv, H
-             | apply tempo_change_inv, H ]).
+             | apply tempo_change_inv, H
+             | apply add_events_inv; [ext_plain|exact H]
+             | apply exec_rpn_direct_inv, H ]).
   - (* TNote *) unfold exec_note. apply emit_note_inv; [exact H|apply simple_note].
   - (* TNoteN *) unfold exec_note_n. apply emit_note_inv; [exact H|apply simple_note].
   - (* TVelocity *) destruct (ino >? 0); [discriminate|]. intros E; injection E as <-.
@@ -461,6 +483,34 @@ Proof.
     try (apply tb_read_error_cmd, I); try (eapply read_macro_args_tb; eassumption).
 Qed.
 
+Lemma read_command_cc_tb ls no s ln ot s' ln' ls' :
+  read_command_cc ls no s ln = Ok (ot, s', ln', ls') -> TB ls -> TB ls'.
+Proof.
+  unfold read_command_cc. intros H I. repeat brk H;
+    injection H as <- <- <- <-; try exact I; eapply read_args_tokens_tb; eassumption.
+Qed.
+Lemma read_cc_tb ls is_c s ln ot s' ln' ls' :
+  read_cc ls is_c s ln = Ok (ot, s', ln', ls') -> TB ls -> TB ls'.
+Proof.
+  unfold read_cc. intros H I. repeat brk H;
+    try (injection H as ->; eapply read_command_cc_tb; eassumption);
+    injection H as <- <- <- <-; try exact I; apply tb_read_error_cmd, I.
+Qed.
+Lemma read_rpn_command_tb ls nrpn msb lsb s ln ot s' ln' ls' :
+  read_rpn_command ls nrpn msb lsb s ln = Ok (ot, s', ln', ls') -> TB ls -> TB ls'.
+Proof.
+  unfold read_rpn_command. intros H I. repeat brk H;
+    injection H as <- <- <- <-; try exact I; eapply read_args_tokens_tb; eassumption.
+Qed.
+Lemma read_ext_command_tb ls ttype argt tag1 tag2 s ln ot s' ln' ls' :
+  read_ext_command ls ttype argt tag1 tag2 s ln = Ok (ot, s', ln', ls') -> TB ls -> TB ls'.
+Proof.
+  unfold read_ext_command. intros H I. repeat brk H;
+    try (injection H as ->; first [eapply read_cc_tb; eassumption | eapply read_command_cc_tb; eassumption
+                                  | eapply read_rpn_command_tb; eassumption]);
+    injection H as <- <- <- <-; try exact I; eapply read_args_tokens_tb; eassumption.
+Qed.
+
 Section LoopTB.
 Variable sublex : lexstate -> list Z -> Z -> res lex_out.
 Hypothesis sub_tb : forall ls s ln toks ls', sublex ls s ln = Ok (toks, ls') -> TB ls -> TB ls'.
@@ -479,6 +529,8 @@ Proof.
   try (apply tb_lex_error, I); try (apply tb_add_log, I);
   try (eapply check_variables_tb; eassumption);
   try (eapply read_args_tokens_tb; eassumption);
+  try (eapply read_cc_tb; eassumption);
+  try (eapply read_ext_command_tb; eassumption);
   try (eapply sub_tb; eassumption);
   try (apply tb_clamp).
 Qed.
@@ -516,6 +568,12 @@ Proof. unfold add_log. destruct (_ <=? _); reflexivity. Qed.
 Lemma dsig_runtime_error s m : dsig (runtime_error s m) = dsig s.
 Proof. apply dsig_add_log. Qed.
 
+Lemma dsig_add_events s f : dsig (add_events s f) = dsig s.
+Proof. apply dsig_upd_cur. Qed.
+Lemma dsig_exec_rpn_direct s nrpn args : dsig (exec_rpn_direct s nrpn args) = dsig s.
+Proof.
+  destruct (exec_rpn_direct_cases s nrpn args) as [[f ->]|[m ->]]; [apply dsig_add_events|apply dsig_runtime_error].
+Qed.
 Lemma dsig_emit_note s ev nl lettered slur s' : emit_note s ev nl lettered slur = Ok s' -> dsig s' = dsig s.
 Proof.
   unfold emit_note.
@@ -567,7 +625,7 @@ Proof.
   intros Hec t s s' H. destruct t; cbn [step_song];
   try (intros E; injection E as <-; apply (dims_of_dsig s); [|exact H];
        first [ reflexivity | dsig_tac | apply dsig_harmony_end | apply dsig_exec_voice
-             | apply dsig_time_signature | apply dsig_tempo_change ]).
+             | apply dsig_time_signature | apply dsig_tempo_change | apply dsig_add_events | apply dsig_exec_rpn_direct ]).
   - (* TNote *) unfold exec_note. intros E. apply dsig_emit_note in E. apply (dims_of_dsig s _ E H).
   - (* TRest *) intros E; injection E as <-. apply (dims_of_dsig s _ (dsig_upd_cur s _) H).
   - (* TVelocity *) destruct (ino >? 0); [discriminate|]. intros E; injection E as <-.
